@@ -73,7 +73,7 @@ def handle (args : List String) (_impl : String) : String × String :=
     else
       let i := parseHex cs
       match op with
-      | "bit" => (boolStr (Ruint.Gen.uint_bit bits (nlimbs bits) a i), boolStr (decide (i < bits) && x.testBit i))
+      | "bit" | "bitidx" => (boolStr (Ruint.Gen.uint_bit bits (nlimbs bits) a i), boolStr (decide (i < bits) && x.testBit i))
       | "byte" => (outON "panic" (byte bits a i),
           if i < (bits + 7) / 8 then toHex (x / 256 ^ i % 256) else "panic")
       | "cbyte" => (outON "none" (checkedByte bits a i),
